@@ -68,7 +68,7 @@ def floors(tier):
     return {"distinct_nontrivial": 500, "cls:nested": 300, "cls:flat": 1000, "cls:body:or": 500, "cls:body:not": 100,
             "cls:zero_solutions": 100, "cls:positional": 100, "cls:nvars=2": 300, "cls:nvars=3": 300,
             "cls:caching_off": 300, "instances_checked": 5000, "cls:f2:const": 100, "cls:f2:call": 50, "cls:special:flatten": 150, "cls:special:preused_as_condition": 150,
-            "cls:rule_variable_with_empty_domain": 100, "cls:special:subquery_head_argument": 150, "cls:special:concatenate_head_argument": 120, "cls:preceded_by_an_abandoned_evaluation": 1000,
+            "cls:rule_variable_with_empty_domain": 100, "cls:special:subquery_head_argument": 150, "cls:special:concatenate_head_argument": 120, "cls:scale:rule_over_50_to_90_objects": 100, "cls:preceded_by_an_abandoned_evaluation": 1000,
             "cls:preceded_by_an_evaluation_under_the_other_caching_switch": 300}
 
 
@@ -85,6 +85,18 @@ def gen_case(rng):
     world = D.random_world(rng, np_=(1, 4), nq=(1, 4))
     d = rng.choice([0, 1, 2, 2, 3])
     cond = C.gen_cond(rng, kinds, d, {"p_leaf": 0.2})
+    big = rng.random() < 0.03
+    if big:
+        # SIZE: a rule over 50-90 objects (one variable, or two joined) whose body compares two attributes of the SAME variable
+        nv = rng.choice([1, 1, 2])
+        kinds = ["P"] if nv == 1 else ["P", "Q"]
+        world = D.random_world(rng, np_=(50, 90), nq=(3, 6), hi=4, rich=False)
+        A_ = lambda vi, f: ["v", vi, [["a", f]]]
+        cond = ["cmp", "==", A_(0, "a"), A_(0, "b")]
+        if nv == 2:
+            cond = ["and", cond, ["cmp", rng.choice(["==", "<="]), A_(1, "a"), A_(0, "b")]]
+        elif rng.random() < 0.5:
+            cond = ["and", ["cmp", ">=", A_(0, "b"), ["lit", 1]], cond]
     mid = 1 if nv == 3 else rng.randrange(nv)
     k = rng.random()
     if nv == 3 or k < 0.6:
@@ -103,14 +115,17 @@ def gen_case(rng):
         vi = mid
         f2 = ["v", vi, ([["a", "p"]] if kinds[vi] == "Q" else []) + [["a", "flag"]]]
         special = {"kind": "preused_as_condition"}
-    nested = rng.random() < 0.3 and special is None
+    if big:
+        special = None
+        f2 = ["v", mid, [["a", "b"]]]
+    nested = rng.random() < 0.3 and special is None and not big
     n0 = len(world[kinds[0]])
     tags = [[rng.randrange(n0), rng.randint(1, 3)] for _ in range(rng.randint(0, n0 + 2))] if nested else []
     empty_domain = rng.randrange(nv) if (rng.random() < 0.05 and special is None) else None
     return {"world": world, "kinds": kinds, "cond": cond, "f2": f2, "nested": nested, "tags": tags, "empty_domain": empty_domain,
             "take_first": rng.choice([0, 0, 1, 2]), "other_switch_first": rng.random() < 0.15,
             "nested_how": rng.choice(["from", "registry"]), "positional": rng.random() < 0.15, "caching": rng.random() < 0.7,
-            "special": special}
+            "special": special, "big": big}
 
 
 def cases(spec, ctx):
@@ -341,6 +356,8 @@ def check_case(case, ctx):
     exp = expected(case, world, tags)
     nv = len(case["kinds"])
     ctx.cls(f"cls:nvars={nv}")
+    if case.get("big"):
+        ctx.cls("cls:scale:rule_over_50_to_90_objects")
     ctx.cls("cls:nested" if case["nested"] else "cls:flat")
     if case.get("empty_domain") is not None:
         ctx.cls("cls:rule_variable_with_empty_domain")
